@@ -128,8 +128,16 @@ def build(case) -> Built:
 
 def apply_initial_conditions(b, init=None, pwm=True):
     init = init or b.case['init']
-    b.last.angular_position = B.q('AngularPosition', init['pos'])
-    b.last.angular_speed = B.q('AngularSpeed', init['speed'])
+    shared = b.case.get('_shared_init')
+    if shared is not None:
+        # the user keeps ONE AngularPosition and ONE AngularSpeed object and hands them to every powertrain of a study
+        # (runtime-only key, never part of a stored case)
+        if 'objs' not in shared:
+            shared['objs'] = (B.q('AngularPosition', init['pos']), B.q('AngularSpeed', init['speed']))
+        b.last.angular_position, b.last.angular_speed = shared['objs']
+    else:
+        b.last.angular_position = B.q('AngularPosition', init['pos'])
+        b.last.angular_speed = B.q('AngularSpeed', init['speed'])
     if pwm:
         b.motor.pwm = b.case['motor'].get('pwm0', 1)
 
